@@ -1,5 +1,335 @@
-"""Sensitivity matrix (thorough tier) - filled in later."""
+"""Sensitivity matrix of the thorough tier (DESIGN.md 2.6, appendix A).
+
+A catalogue of seeded variants of the *current* tree, applied as text edits on an in-memory
+overlay (nothing is written to /repo, nothing is executed or imported from it).  Breaking variants
+must make the expected obligation VIOLATED; benign twins (behaviour-preserving rewrites) must
+leave every obligation of the property HOLDS.  An unmet expectation is a defect of the checker
+and is reported as ANALYSIS-ERROR (exit 2), never as a VIOLATION of the repository.  A variant
+whose anchor text no longer occurs in the tree is recorded as not applicable.
+"""
+
+from __future__ import annotations
+
+import os
+import time
+from concurrent.futures import ProcessPoolExecutor
+from dataclasses import dataclass
+
+API = "api.py"
+REC = "reconciliation.py"
+DISC = "discovery.py"
+RES = "resolver_service.py"
+W3C = "w3c.py"
+MSU = "mapping_service/utils.py"
+MSA = "mapping_service/api.py"
+TRI = "triples.py"
 
 
-def run_matrix(prop: str):
-    return 0, {}
+@dataclass
+class Variant:
+    id: str
+    props: tuple
+    kind: str  # breaking | benign
+    file: str
+    old: str
+    new: str
+    expect: tuple = ()  # obligation ids of which at least one must be VIOLATED (breaking)
+    note: str = ""
+
+
+V: list[Variant] = []
+
+
+def b(id, props, file, old, new, expect, note=""):
+    V.append(Variant(id, tuple(props.split()), "breaking", file, old, new, tuple(expect.split()), note))
+
+
+def t(id, props, file, old, new, note=""):
+    V.append(Variant(id, tuple(props.split()), "benign", file, old, new, (), note))
+
+
+# ------------------------------------------------------------------------------------- C01 / C03
+b("idx-trie-no-synonyms", "C01 C03 C05", API, "            self.trie[uri_prefix_synonym] = record.prefix\n", "", "C01-D1 C03-L1 C05-D1", "_index stops writing URI synonyms into the trie")
+b("revmap-skip-falsy", "C01 C03 C05", API, "        rv[record.uri_prefix] = record.prefix\n        for uri_prefix_synonym", "        if record.uri_prefix:\n            rv[record.uri_prefix] = record.prefix\n        for uri_prefix_synonym", "C01-D1 C03-L1 C05-D1", "_get_reverse_prefix_map skips the empty URI prefix")
+b("format-curie-literal", "C01 C03 C06 C07", API, 'return f"{prefix}{self.delimiter}{identifier}"', 'return f"{prefix}:{identifier}"', "C01-D4 C03-L3 C06-D3 C07-D4")
+b("trie-shortest", "C01", API, "self.trie.longest_prefix_item(uri)", "self.trie.shortest_prefix_item(uri)", "C01-D2")
+b("remainder-plus-one", "C01 C03", API, "uri[len(value) :]", "uri[len(value) + 1 :]", "C01-D3 C03-L1")
+b("remainder-replace", "C01 C03", API, "uri[len(value) :]", 'uri.replace(value, "")', "C01-D3 C03-L1")
+b("is-uri-via-is-curie", "C01 C07", API, "        return self.compress(s) is not None\n", "        return self.is_curie(s)\n", "C01-D4 C07-D1")
+b("compress-ref-curie", "C01 C03", API, "        reference = self.parse_uri(uri, return_none=True)\n        if reference:\n            return self.format_curie(reference.prefix, reference.identifier)", "        reference = self.parse_uri(uri, return_none=True)\n        if reference:\n            return reference.curie", "C01-D4 C03-L3")
+b("parse-uri-cache", "C01 C03 C05", API, "        try:\n            value, prefix = self.trie.longest_prefix_item(uri)\n", "        self._last = uri\n        try:\n            value, prefix = self.trie.longest_prefix_item(uri)\n", "C01-D6 C03-L6 C05-D7 C05-D2", "a query method writes converter state")
+b("init-derived-cache", "C01 C05", API, "        self.pattern_map = _get_pattern_map(records)\n", "        self.pattern_map = _get_pattern_map(records)\n        self._uri_prefixes = sorted(self.reverse_prefix_map, key=len)\n", "C01-D6 C05-D7 C05-D2", "derived state not maintained by _index")
+t("twin-removeprefix", "C01 C03", API, "uri[len(value) :]", "uri.removeprefix(value)")
+t("twin-revmap-comprehension", "C01 C03 C05", API, "    rv = {}\n    for record in records:\n        rv[record.uri_prefix] = record.prefix\n        for uri_prefix_synonym in record.uri_prefix_synonyms:\n            rv[uri_prefix_synonym] = record.prefix\n    return rv\n", "    return {up: record.prefix for record in records for up in record._all_uri_prefixes}\n")
+t("twin-rename-value-prefix", "C01 C03", API, "            value, prefix = self.trie.longest_prefix_item(uri)\n", "            matched, prefix = self.trie.longest_prefix_item(uri)\n            value = matched\n")
+t("twin-is-uri-parse-uri", "C01 C07", API, "        return self.compress(s) is not None\n", "        return self.parse_uri(s, return_none=True) is not None\n")
+t("twin-compress-is-not-none", "C01 C03 C08", API, "        reference = self.parse_uri(uri, return_none=True)\n        if reference:\n", "        reference = self.parse_uri(uri, return_none=True)\n        if reference is not None:\n")
+t("twin-index-merged-loops", "C01 C02 C05", API, "        self.prefix_map[record.prefix] = record.uri_prefix\n        self.synonym_to_prefix[record.prefix] = record.prefix\n        for prefix_synonym in record.prefix_synonyms:\n            self.prefix_map[prefix_synonym] = record.uri_prefix\n            self.synonym_to_prefix[prefix_synonym] = record.prefix\n", "        for prefix_synonym in record._all_prefixes:\n            self.prefix_map[prefix_synonym] = record.uri_prefix\n            self.synonym_to_prefix[prefix_synonym] = record.prefix\n")
+
+# ------------------------------------------------------------------------------------- C02 / C06
+b("split-no-sep", "C02 C03", API, "_split(curie, sep=self.delimiter)", "_split(curie)", "C02-D2 C03-L3")
+b("expand-ref-truthiness", "C02", API, "        if uri_prefix is not None:\n            return uri_prefix + reference.identifier", "        if uri_prefix:\n            return uri_prefix + reference.identifier", "C02-D3")
+b("split-rpartition", "C02 C03 C15", API, "prefix, delimiter, identifier = curie.partition(sep)", "prefix, delimiter, identifier = curie.rpartition(sep)", "C02-D1 C03-L3 C15-D3")
+b("identifier-strip", "C02 C03", API, "            return uri_prefix + reference.identifier\n", "            return uri_prefix + reference.identifier.strip()\n", "C02-D5 C03-L2")
+b("expand-pair-all-skip-canonical", "C02 C03", API, "            rv = [record.uri_prefix + identifier]\n            for uri_prefix_synonyms in record.uri_prefix_synonyms:", "            rv = []\n            for uri_prefix_synonyms in record.uri_prefix_synonyms:", "C02-D7 C03-L4")
+b("std-prefix-truthiness-again", "C02 C06", API, "        if rv is not None:\n            return rv\n        if strict:\n            raise PrefixStandardizationError(prefix)", "        if rv:\n            return rv\n        if strict:\n            raise PrefixStandardizationError(prefix)", "C02-D3 C06-D1")
+b("std-prefix-casefold", "C06", API, "rv = self.synonym_to_prefix.get(prefix)", "rv = self.synonym_to_prefix.get(prefix.casefold())", "C06-D1")
+b("std-curie-literal", "C06", API, "            return self.format_curie(*rt)\n", '            return f"{rt.prefix}:{rt.identifier}"\n', "C06-D3")
+b("get-record-canonical-only", "C02 C03", API, "            if record.prefix == prefix or prefix in record.prefix_synonyms:\n", "            if record.prefix == prefix:\n", "C02-D7 C03-L4")
+b("synmap-no-synonyms", "C02 C05 C06", API, "        rv[record.prefix] = record.prefix\n        for prefix_synonym in record.prefix_synonyms:\n            rv[prefix_synonym] = record.prefix\n", "        rv[record.prefix] = record.prefix\n", "C02-D4 C05-D1 C06-D2")
+b("expand-drops-passthrough", "C02 C08", API, "        reference = self.parse_curie(curie, strict=False)\n        if reference is not None:\n            return self.expand_reference(reference, strict=strict, passthrough=passthrough)\n        if strict:\n            raise ExpansionError(curie)", "        reference = self.parse_curie(curie, strict=False)\n        if reference is not None:\n            return self.expand_reference(reference, strict=strict)\n        if strict:\n            raise ExpansionError(curie)", "C02-D6")
+t("twin-expand-pair-all-display", "C02 C03", API, "            rv = [record.uri_prefix + identifier]\n            for uri_prefix_synonyms in record.uri_prefix_synonyms:\n                rv.append(uri_prefix_synonyms + identifier)\n            return rv\n", "            return [record.uri_prefix + identifier, *(s + identifier for s in record.uri_prefix_synonyms)]\n")
+t("twin-expand-pair-all-comp", "C02 C03", API, "            rv = [record.uri_prefix + identifier]\n            for uri_prefix_synonyms in record.uri_prefix_synonyms:\n                rv.append(uri_prefix_synonyms + identifier)\n            return rv\n", "            return [up + identifier for up in record._all_uri_prefixes]\n")
+t("twin-expand-ref-fstring", "C02 C03", API, "            return uri_prefix + reference.identifier\n", '            return f"{uri_prefix}{reference.identifier}"\n')
+t("twin-get-record-all-prefixes", "C02 C03", API, "            if record.prefix == prefix or prefix in record.prefix_synonyms:\n", "            if prefix in record._all_prefixes:\n")
+t("twin-split-not-in", "C02 C03 C15", API, "    prefix, delimiter, identifier = curie.partition(sep)\n    if not delimiter:\n        raise NoCURIEDelimiterError(curie)\n", "    if sep not in curie:\n        raise NoCURIEDelimiterError(curie)\n    prefix, _, identifier = curie.partition(sep)\n")
+
+# ------------------------------------------------------------------------------------- C04
+b("dup-prefix-canonical-only", "C04", API, "        for prefix, p2 in itt.product(record_1._all_prefixes, record_2._all_prefixes)\n", "        for prefix, p2 in itt.product([record_1.prefix], [record_2.prefix])\n", "C04-D2")
+b("dup-zip-adjacent", "C04", API, "        for record_1, record_2 in itt.combinations(records, 2)\n        for uri_prefix, up2", "        for record_1, record_2 in zip(records, records[1:])\n        for uri_prefix, up2", "C04-D2")
+b("dup-order-swapped", "C04", API, "            duplicate_uri_prefixes = _get_duplicate_uri_prefixes(records)\n            if duplicate_uri_prefixes:\n                raise DuplicateURIPrefixes(duplicate_uri_prefixes)\n            duplicate_prefixes = _get_duplicate_prefixes(records)\n            if duplicate_prefixes:\n                raise DuplicatePrefixes(duplicate_prefixes)\n", "            duplicate_prefixes = _get_duplicate_prefixes(records)\n            if duplicate_prefixes:\n                raise DuplicatePrefixes(duplicate_prefixes)\n            duplicate_uri_prefixes = _get_duplicate_uri_prefixes(records)\n            if duplicate_uri_prefixes:\n                raise DuplicateURIPrefixes(duplicate_uri_prefixes)\n", "C04-D1")
+b("validator-wrong-canonical", "C04", API, 'uri_prefix = _get_field_validator_values(values, "uri_prefix")', 'uri_prefix = _get_field_validator_values(values, "prefix")', "C04-D3")
+b("loader-strict-false", "C04 C13", API, "        return cls(records, **kwargs)\n\n    @classmethod\n    def from_jsonld(", "        return cls(records, strict=False, **kwargs)\n\n    @classmethod\n    def from_jsonld(", "C04-D4 C13-D3")
+b("model-construct", "C04", API, "record if isinstance(record, Record) else Record(**record)", "record if isinstance(record, Record) else Record.model_construct(**record)", "C04-D3")
+b("dup-cross-side", "C04", API, "        for uri_prefix, up2 in itt.product(record_1._all_uri_prefixes, record_2._all_uri_prefixes)\n", "        for uri_prefix, up2 in itt.product(record_1._all_uri_prefixes, record_2._all_prefixes)\n", "C04-D2")
+b("bimap-swapped", "C04", API, "return {r.uri_prefix: r.prefix for r in self.records}", "return {r.prefix: r.uri_prefix for r in self.records}", "C04-D5")
+b("index-built-before-check", "C04", API, "        records = sorted(records, key=lambda r: r.prefix)\n        if strict:\n", "        records = sorted(records, key=lambda r: r.prefix)\n        self.prefix_map = _get_prefix_map(records)\n        if strict:\n", "C04-D1")
+t("twin-dup-explicit-cover", "C04", API, "        for prefix, p2 in itt.product(record_1._all_prefixes, record_2._all_prefixes)\n", "        for prefix, p2 in itt.product([record_1.prefix, *record_1.prefix_synonyms], [record_2.prefix, *record_2.prefix_synonyms])\n")
+t("twin-dup-set-intersection", "C04", API, "    return [\n        DuplicateSummary(record_1, record_2, prefix)\n        for record_1, record_2 in itt.combinations(records, 2)\n        for prefix, p2 in itt.product(record_1._all_prefixes, record_2._all_prefixes)\n        if prefix == p2\n    ]\n", "    return [\n        DuplicateSummary(record_1, record_2, prefix)\n        for record_1, record_2 in itt.combinations(records, 2)\n        for prefix in sorted(set(record_1._all_prefixes) & set(record_2._all_prefixes))\n    ]\n")
+
+# ------------------------------------------------------------------------------------- C05 / C09
+b("index-synmap-no-synonyms", "C05 C02", API, "            self.prefix_map[prefix_synonym] = record.uri_prefix\n            self.synonym_to_prefix[prefix_synonym] = record.prefix\n", "            self.prefix_map[prefix_synonym] = record.uri_prefix\n", "C05-D1 C02-D4")
+b("append-before-check", "C05", API, "        matched = self._match_record(record, case_sensitive=case_sensitive)\n        if len(matched) > 1:\n", "        matched = self._match_record(record, case_sensitive=case_sensitive)\n        if not matched:\n            self.records.append(record)\n        if len(matched) > 1:\n", "C05-D3 C05-D4")
+b("match-loses-syn-syn-uri", "C05 C09", API, "                if _in(\n                    uri_prefix_synonym, record.uri_prefix_synonyms, case_sensitive=case_sensitive\n                ):\n                    rv[record._key].append(\"URI prefix match\")\n", "", "C05-D6 C09-D2")
+b("merge-overwrites-prefix", "C05 C09", API, "        into.prefix_synonyms.sort()\n", "        into.prefix_synonyms.sort()\n        into.prefix = record.prefix\n", "C05-D5 C09-D2")
+b("add-prefix-drops-merge", "C05", API, "self.add_record(record, case_sensitive=case_sensitive, merge=merge)", "self.add_record(record, case_sensitive=case_sensitive)", "C05-D3")
+b("match-break", "C05 C09", API, "        return dict(rv)\n\n    def add_record(", "            if record._key in rv:\n                break\n        return dict(rv)\n\n    def add_record(", "C05-D6 C09-D2")
+b("index-conditional", "C05", API, "            self._merge(record, into=existing_record)\n            self._index(existing_record)\n", "            self._merge(record, into=existing_record)\n            if existing_record._key != key:\n                self._index(existing_record)\n", "C05-D4")
+b("merge-no-membership-test", "C05 C09", API, "            if uri_prefix_synonym not in into._all_uri_prefixes:\n                into.uri_prefix_synonyms.append(uri_prefix_synonym)\n", "            if uri_prefix_synonym not in into.uri_prefix_synonyms:\n                into.uri_prefix_synonyms.append(uri_prefix_synonym)\n", "C05-D5 C09-D2")
+b("match-raw-eq", "C05 C09", API, "            if _eq(external.prefix, record.prefix, case_sensitive=case_sensitive):\n", "            if external.prefix == record.prefix:\n", "C05-D6 C09-D2")
+b("eq-always-folds", "C05 C09", API, "    if case_sensitive:\n        return a == b\n    return a.casefold() == b.casefold()", "    return a.casefold() == b.casefold()", "C05-D6 C09-D2")
+b("subconverter-canonical-only", "C09", API, "            if any(prefix in prefixes for prefix in record._all_prefixes)\n", "            if record.prefix in prefixes\n", "C09-D3")
+b("subconverter-delimiter-dropped", "C09", API, "return Converter(records, delimiter=self.delimiter)", "return Converter(records)", "C09-D4")
+b("chain-delimiter-dropped", "C09", API, "rv = Converter([], delimiter=converters[0].delimiter)", "rv = Converter([])", "C09-D4")
+b("chain-reversed", "C09", API, "    for converter in converters:\n        for record in converter.records:\n            rv.add_record(", "    for converter in reversed(converters):\n        for record in converter.records:\n            rv.add_record(", "C09-D1")
+b("chain-case-not-forwarded", "C09", API, "                record.model_copy(deep=True), case_sensitive=case_sensitive, merge=True\n", "                record.model_copy(deep=True), merge=True\n", "C09-D1")
+t("twin-add-prefix-positional-record", "C05", API, "        self.add_record(record, case_sensitive=case_sensitive, merge=merge)\n", "        self.add_record(record=record, case_sensitive=case_sensitive, merge=merge)\n")
+t("twin-subconverter-generator-list", "C09 C10", API, "            if any(prefix in prefixes for prefix in record._all_prefixes)\n", "            if any([prefix in prefixes for prefix in record._all_prefixes])\n")
+t("twin-subconverter-intersection", "C09 C10", API, "            if any(prefix in prefixes for prefix in record._all_prefixes)\n", "            if prefixes.intersection(record._all_prefixes)\n")
+
+# ------------------------------------------------------------------------------------- C07 / C08
+b("parse-curie-first", "C07", API, "        if self.is_uri(uri_or_curie):\n            if strict:\n                return self.parse_uri(uri_or_curie, strict=True, return_none=True)\n            else:\n                return self.parse_uri(uri_or_curie, strict=False, return_none=True)\n        if self.is_curie(uri_or_curie):\n            if strict:\n                return self.parse_curie(uri_or_curie, strict=True)\n            else:\n                return self.parse_curie(uri_or_curie, strict=False)\n", "        if self.is_curie(uri_or_curie):\n            if strict:\n                return self.parse_curie(uri_or_curie, strict=True)\n            else:\n                return self.parse_curie(uri_or_curie, strict=False)\n        if self.is_uri(uri_or_curie):\n            if strict:\n                return self.parse_uri(uri_or_curie, strict=True, return_none=True)\n            else:\n                return self.parse_uri(uri_or_curie, strict=False, return_none=True)\n", "C07-D2")
+b("compress-strict-false", "C07", API, "return self.compress(uri, strict=True)", "return self.compress(uri, strict=False)", "C07-D4")
+b("is-curie-via-compress", "C07", API, "            return self.expand(s) is not None\n", "            return self.compress(s) is not None\n", "C07-D1")
+b("cos-ref-curie", "C07", API, "        reference = self.parse(uri_or_curie, strict=False)\n        if reference is not None:\n            return self.format_curie(reference.prefix, reference.identifier)", "        reference = self.parse(uri_or_curie, strict=False)\n        if reference is not None:\n            return reference.curie", "C07-D3")
+b("eos-via-parse-curie", "C07", API, "        reference = self.parse(curie_or_uri, strict=False)\n", "        reference = self.parse_curie(curie_or_uri, strict=False)\n", "C07-D3")
+b("passthrough-before-strict", "C08 C06", API, "        if strict:\n            raise URIStandardizationError(uri)\n        if passthrough:\n            return uri\n        return None", "        if passthrough:\n            return uri\n        if strict:\n            raise URIStandardizationError(uri)\n        return None", "C08-D3 C06-D5")
+b("parse-curie-loses-try", "C08 C06", API, "        try:\n            prefix, identifier = _split(curie, sep=self.delimiter)\n        except NoCURIEDelimiterError:\n            if strict:\n                raise\n            return None\n", "        prefix, identifier = _split(curie, sep=self.delimiter)\n", "C08-D1 C06-D5")
+b("strict-raises-keyerror", "C08", API, "        if strict:\n            raise ExpansionError(reference.prefix)", "        if strict:\n            raise KeyError(reference.prefix)", "C08-D2")
+b("strict-raise-deleted", "C08", API, "        if strict:\n            raise CompressionError(uri)\n        if passthrough:\n            return uri\n        return None", "        if passthrough:\n            return uri\n        return None", "C08-D3")
+b("passthrough-returns-none", "C08", API, "        if strict:\n            raise CURIEStandardizationError(curie)\n        if passthrough:\n            return curie\n        return None", "        if strict:\n            raise CURIEStandardizationError(curie)\n        return None", "C08-D3 C06-D5")
+b("expand-all-get-record-strict", "C08", API, "        record = self.get_record(prefix)\n        if record is not None:\n            rv = [record.uri_prefix + identifier]", "        record = self.get_record(prefix, strict=True)\n        if record is not None:\n            rv = [record.uri_prefix + identifier]", "C08-D1 C08-D2")
+b("std-uri-subscript-raw", "C08 C06 C03", API, "            return self.prefix_map[reference.prefix] + reference.identifier", "            return self.prefix_map[uri] + reference.identifier", "C08-D1 C06-D4 C03-L5")
+t("twin-tail-elif", "C08", API, "        if strict:\n            raise CompressionError(uri)\n        if passthrough:\n            return uri\n        return None", "        if strict:\n            raise CompressionError(uri)\n        elif passthrough:\n            return uri\n        else:\n            return None")
+t("twin-raise-from-none", "C08", API, "            raise ExpansionError(curie)\n        if passthrough:\n            return curie", "            raise ExpansionError(curie) from None\n        if passthrough:\n            return curie")
+t("twin-parse-flat", "C07 C08", API, "            if strict:\n                return self.parse_uri(uri_or_curie, strict=True, return_none=True)\n            else:\n                return self.parse_uri(uri_or_curie, strict=False, return_none=True)\n", "            return self.parse_uri(uri_or_curie, strict=strict, return_none=True)\n")
+
+# ------------------------------------------------------------------------------------- C10 / C11 / C12
+b("chain-no-copy", "C10", API, "                record.model_copy(deep=True), case_sensitive=case_sensitive, merge=True\n", "                record, case_sensitive=case_sensitive, merge=True\n", "C10-D2")
+b("chain-shallow-copy", "C10", API, "                record.model_copy(deep=True), case_sensitive=case_sensitive, merge=True\n", "                record.model_copy(), case_sensitive=case_sensitive, merge=True\n", "C10-D2")
+b("rewire-no-copy", "C10", REC, "        record = record.model_copy(deep=True)\n        new_uri_prefix = _get_curie_preferred_or_synonym(record, rewiring)", "        new_uri_prefix = _get_curie_preferred_or_synonym(record, rewiring)", "C10-D1 C10-D2")
+b("subconverter-no-copy", "C10", API, "            record.model_copy(deep=True)\n            for record in self.records\n            if any(", "            record\n            for record in self.records\n            if any(", "C10-D2")
+b("discover-adds-to-input", "C10", DISC, "    return Converter(records)\n", "    if converter is not None:\n        for record in records:\n            converter.add_record(record)\n    return Converter(records)\n", "C10-D3")
+b("remap-uri-shallow-mutate", "C10", REC, "        record = record.model_copy(deep=True)\n        new_uri_prefix = _get_uri_preferred_or_synonym(record, remapping)", "        record = record.model_copy()\n        record.uri_prefix_synonyms.sort()\n        new_uri_prefix = _get_uri_preferred_or_synonym(record, remapping)", "C10-D1 C10-D2")
+t("twin-deepcopy-module", "C10 C12", REC, "from .api import Converter, Record\n", "import copy\n\nfrom .api import Converter, Record\n", "import only")
+t("twin-rewire-copy-deepcopy", "C10 C12", REC, "import logging\nfrom collections import Counter, defaultdict\n", "import copy\nimport logging\nfrom collections import Counter, defaultdict\n")
+b("c11-plain-drops-union", "C11", REC, "                set(record.prefix_synonyms).union({record.prefix}).difference({new_prefix})\n", "                set(record.prefix_synonyms).difference({new_prefix})\n", "C11-D1")
+b("c11-continue-drops-record", "C11", REC, "                new_record,\n            )\n        elif old in handed_over:", "                new_record,\n            )\n            continue\n        elif old in handed_over:", "C11-D4")
+b("c11-stores-uri-prefix", "C11", REC, "            record.prefix = new_prefix\n        modified_records.append(record)", "            record.prefix = new_prefix\n            record.uri_prefix_synonyms = sorted(record.uri_prefix_synonyms)\n        modified_records.append(record)", "C11-D3")
+b("c11-handover-back-to-intersection", "C11", REC, "    handed_over = {new for old, new in remapping.items() if old in converter.synonym_to_prefix}\n", "    handed_over = set(remapping).intersection(remapping.values())\n", "C11-D2")
+b("c11-transitive-loses-canonical", "C11", REC, "                set(record.prefix_synonyms).union({record.prefix}).difference({old, new_prefix})\n", "                set(record.prefix_synonyms).difference({old, new_prefix})\n", "C11-D1")
+b("c11-new-left-in-synonyms", "C11", REC, "                set(record.prefix_synonyms).union({record.prefix}).difference({new_prefix})\n", "                set(record.prefix_synonyms).union({record.prefix})\n", "C11-D1")
+b("c11-clash-ignores-own", "C11", REC, "        if new_record is not None and record != new_record:", "        if new_record is not None:", "C11-D5")
+t("twin-c11-operators", "C11", REC, "                set(record.prefix_synonyms).union({record.prefix}).difference({new_prefix})\n", "                (set(record.prefix_synonyms) | {record.prefix}) - {new_prefix}\n")
+b("c12-rewire-drops-union", "C12", REC, "            record.uri_prefix_synonyms = sorted(\n                set(record.uri_prefix_synonyms)\n                .union({record.uri_prefix})\n                .difference({new_uri_prefix})\n            )\n            record.uri_prefix = new_uri_prefix\n        records.append(record)\n\n    # potential", "            record.uri_prefix_synonyms = sorted(\n                set(record.uri_prefix_synonyms)\n                .difference({new_uri_prefix})\n            )\n            record.uri_prefix = new_uri_prefix\n        records.append(record)\n\n    # potential", "C12-D1")
+b("c12-clash-test-removed", "C12", REC, "        elif (\n            new_uri_prefix in converter.reverse_prefix_map\n            and new_uri_prefix not in record.uri_prefix_synonyms\n        ):\n            pass  # would create a clash, don't do anything\n", "", "C12-D2")
+b("c12-transitive-disabled", "C12", REC, "    if intersection:\n        raise TransitiveError(intersection)\n", "", "C12-D3")
+b("c12-own-synonym-not-promoted", "C12", REC, "        elif (\n            new_uri_prefix in converter.reverse_prefix_map\n            and new_uri_prefix not in record.uri_prefix_synonyms\n        ):\n            pass  # would create a clash, don't do anything\n", "        elif new_uri_prefix in converter.reverse_prefix_map:\n            pass  # would create a clash, don't do anything\n", "C12-D2")
+b("c12-canonical-only-knowledge", "C12", REC, "            new_uri_prefix in converter.reverse_prefix_map\n            and new_uri_prefix not in record.uri_prefix_synonyms\n        ):\n            logger.debug(", "            new_uri_prefix in converter.get_uri_prefixes()\n            and new_uri_prefix not in record.uri_prefix_synonyms\n        ):\n            logger.debug(", "C12-D2")
+b("c12-helper-canonical-only", "C12", REC, "    if record.uri_prefix in upgrades:\n        return upgrades[record.uri_prefix]\n    for s in record.uri_prefix_synonyms:\n        if s in upgrades:\n            return upgrades[s]\n    return None", "    if record.uri_prefix in upgrades:\n        return upgrades[record.uri_prefix]\n    return None", "C12-D5")
+b("c12-rewire-stores-prefix", "C12", REC, "            record.uri_prefix = new_uri_prefix\n        records.append(record)\n\n    # potential", "            record.uri_prefix = new_uri_prefix\n            record.prefix_synonyms = sorted(record.prefix_synonyms)\n        records.append(record)\n\n    # potential", "C12-D4")
+t("twin-c12-operators", "C12", REC, "            record.uri_prefix_synonyms = sorted(\n                set(record.uri_prefix_synonyms)\n                .union({record.uri_prefix})\n                .difference({new_uri_prefix})\n            )\n            record.uri_prefix = new_uri_prefix\n        records.append(record)\n    return Converter(records)", "            record.uri_prefix_synonyms = sorted(\n                (set(record.uri_prefix_synonyms) | {record.uri_prefix}) - {new_uri_prefix}\n            )\n            record.uri_prefix = new_uri_prefix\n        records.append(record)\n    return Converter(records)")
+t("twin-c12-trie-knowledge", "C12", REC, "            new_uri_prefix in converter.reverse_prefix_map\n            and new_uri_prefix not in record.uri_prefix_synonyms\n        ):\n            pass", "            new_uri_prefix in converter.get_uri_prefixes(include_synonyms=True)\n            and new_uri_prefix not in record.uri_prefix_synonyms\n        ):\n            pass")
+
+# ------------------------------------------------------------------------------------- C13 / C14
+b("reverse-map-lexicographic", "C13", API, "sorted(uri_prefixes, key=len)", "sorted(uri_prefixes)", "C13-D4")
+b("upgrade-no-inner-sort", "C13", API, "        uri_prefix: sorted(curie_prefixes)\n", "        uri_prefix: list(curie_prefixes)\n", "C13-D4")
+b("upgrade-no-outer-sort", "C13", API, "        for uri_prefix, (prefix, *prefix_synonyms) in sorted(priority_prefix_map.items())\n", "        for uri_prefix, (prefix, *prefix_synonyms) in priority_prefix_map.items()\n", "C13-D4")
+b("jsonld-keeps-at-keys", "C13", API, '            if key.startswith("@"):\n                continue\n', "", "C13-D5")
+b("jsonld-prefix-truthiness", "C13", API, 'value.get("@prefix") is True', 'value.get("@prefix")', "C13-D5")
+b("loader-bypasses-prepare", "C13", API, "                for prefix, uri_prefix in _prepare(prefix_map).items()\n", "                for prefix, uri_prefix in prefix_map.items()\n", "C13-D1")
+b("prefix-map-roles-swapped", "C13", API, "                Record(prefix=prefix, uri_prefix=uri_prefix)\n                for prefix, uri_prefix in _prepare(prefix_map).items()", "                Record(prefix=uri_prefix, uri_prefix=prefix)\n                for prefix, uri_prefix in _prepare(prefix_map).items()", "C13-D4")
+b("rdflib-skip-empty", "C13", API, "prefix_map = {prefix: str(namespace) for prefix, namespace in graph_or_manager.namespaces()}", "prefix_map = {prefix: str(namespace) for prefix, namespace in graph_or_manager.namespaces() if prefix}", "C13-D4")
+b("priority-tail-from-2", "C13", API, "uri_prefix_synonyms=uri_prefixes[1:]", "uri_prefix_synonyms=uri_prefixes[2:]", "C13-D4")
+b("prepare-str-not-loaded", "C13", API, "        with open(data) as file:\n            return cast(X, json.load(file))\n    else:\n        return data", "        return data\n    else:\n        return data", "C13-D2")
+b("load-wrapper-wrong-target", "C13", API, "    return Converter.from_jsonld(data, **kwargs)", "    return Converter.from_prefix_map(data, **kwargs)", "C13-D1")
+t("twin-reverse-head-tail-index", "C13", API, "            uri_prefix, *uri_prefix_synonyms = sorted(uri_prefixes, key=len)\n", "            ordered = sorted(uri_prefixes, key=len)\n            uri_prefix, uri_prefix_synonyms = ordered[0], ordered[1:]\n")
+t("twin-reverse-key-lambda", "C13", API, "sorted(uri_prefixes, key=len)", "sorted(uri_prefixes, key=lambda s: len(s))")
+b("epm-omits-uri-synonyms", "C14", API, '    if record.uri_prefix_synonyms:\n        rv["uri_prefix_synonyms"] = sorted(record.uri_prefix_synonyms)\n', "", "C14-D1")
+b("shacl-pattern-unescaped", "C14", API, '        pattern = pattern.replace("\\\\", "\\\\\\\\")\n', "", "C14-D4")
+b("shacl-prefix-unescaped", "C14", API, '    prefix = prefix.replace("\\\\", "\\\\\\\\")\n', "", "C14-D4")
+b("jsonld-ignores-include-synonyms", "C14", API, "        if include_synonyms:\n            for prefix_synonym in record.prefix_synonyms:\n                context[prefix_synonym] = term\n", "", "C14-D2")
+b("jsonld-value-for-id", "C14", API, 'rv = {"@prefix": True, "@id": record.uri_prefix}', 'rv = {"@prefix": True, "@value": record.uri_prefix}', "C14-D2")
+b("shacl-writer-regex-term", "C14", API, """line += f'; sh:pattern "{pattern}"'""", """line += f'; sh:regex "{pattern}"'""", "C14-D3")
+b("tsv-columns-swapped", "C14", API, "writer.writerow((record.prefix, record.uri_prefix))", "writer.writerow((record.uri_prefix, record.prefix))", "C14-D5")
+b("epm-pattern-truthiness", "C14", API, "    if record.pattern is not None:\n", "    if record.pattern:\n", "C14-D1")
+b("shacl-synonym-wrong-namespace", "C14", API, "                    _get_shacl_line(prefix_synonym, record.uri_prefix, pattern=record.pattern)\n", "                    _get_shacl_line(prefix_synonym, record.prefix, pattern=record.pattern)\n", "C14-D3")
+
+# ------------------------------------------------------------------------------------- C15 / C16
+b("hash-includes-curie-only-prefix", "C15", API, "        return hash((self.prefix, self.identifier))", "        return hash(self.prefix)", "C15-D1")
+b("lt-prefix-only", "C15", API, "        return self.pair < other.pair", "        return self.prefix < other.prefix", "C15-D2")
+b("named-not-frozen", "C15", API, '    name: str = Field(\n        ..., description="The name of the entity referenced by this object\'s prefix and identifier."\n    )\n\n    model_config = ConfigDict(frozen=True)', '    name: str = Field(\n        ..., description="The name of the entity referenced by this object\'s prefix and identifier."\n    )\n\n    model_config = ConfigDict(frozen=False)', "C15-D4")
+b("read-triples-swapped", "C15", TRI, "                predicate=reference_cls.from_curie(predicate_curie),\n                object=reference_cls.from_curie(object_curie),\n            )\n            for subject_curie", "                predicate=reference_cls.from_curie(object_curie),\n                object=reference_cls.from_curie(predicate_curie),\n            )\n            for subject_curie", "C15-D7")
+b("curie-joined-with-slash", "C15", API, '        return f"{self.prefix}:{self.identifier}"\n\n    @property\n    def pair', '        return f"{self.prefix}/{self.identifier}"\n\n    @property\n    def pair', "C15-D3")
+b("eq-compares-name", "C15", API, "            and self.identifier == other.identifier\n        )", "            and self.identifier == other.identifier\n            and getattr(self, \"name\", None) == getattr(other, \"name\", None)\n        )", "C15-D1")
+b("prefix-validate-not-strict", "C15", API, "return cls(converter.standardize_prefix(__input_value, strict=True))", "return cls(converter.standardize_prefix(__input_value, passthrough=True))", "C15-D5")
+b("from-curie-no-context", "C15", API, '        prefix, identifier = _split(curie, sep=sep)\n        return cls.model_validate({"prefix": prefix, "identifier": identifier}, context=converter)', '        prefix, identifier = _split(curie, sep=sep)\n        return cls.model_validate({"prefix": prefix, "identifier": identifier})', "C15-D3")
+t("twin-eq-pair", "C15", API, "        return self.pair < other.pair", "        return (self.prefix, self.identifier) < (other.prefix, other.identifier)")
+b("pd-curie-no-passthrough", "C16", API, "func = partial(self.standardize_curie, strict=strict, passthrough=passthrough)", "func = partial(self.standardize_curie, strict=strict)", "C16-D1")
+b("target-or-column", "C16", API, "        func = partial(self.standardize_uri, strict=strict, passthrough=passthrough)\n        df[column if target_column is None else target_column] = df[column].map(func)", "        func = partial(self.standardize_uri, strict=strict, passthrough=passthrough)\n        df[target_column or column] = df[column].map(func)", "C16-D2")
+b("file-helper-convert-while-writing", "C16", API, "            for row in reader:\n                row[column] = func(row[column]) or \"\"\n                rows.append(row)\n        with path.open(\"w\") as file_out:\n            writer = csv.writer(file_out, delimiter=delimiter)\n            if _header:\n                writer.writerow(_header)\n            writer.writerows(rows)", "            for row in reader:\n                rows.append(row)\n        with path.open(\"w\") as file_out:\n            writer = csv.writer(file_out, delimiter=delimiter)\n            if _header:\n                writer.writerow(_header)\n            for row in rows:\n                row[column] = func(row[column]) or \"\"\n                writer.writerow(row)", "C16-D3")
+b("file-expand-wraps-compress", "C16", API, "        pre_func = self.expand_or_standardize if ambiguous else self.expand\n        func = partial(pre_func, strict=strict, passthrough=passthrough)  # type:ignore\n        self._file_helper(", "        pre_func = self.compress_or_standardize if ambiguous else self.compress\n        func = partial(pre_func, strict=strict, passthrough=passthrough)  # type:ignore\n        self._file_helper(", "C16-D1")
+b("file-helper-other-column", "C16", API, '                row[column] = func(row[column]) or ""\n', '                row[0] = func(row[column]) or ""\n', "C16-D4")
+b("pd-ambiguous-ignored", "C16", API, "        pre_func = self.compress_or_standardize if ambiguous else self.compress\n        func = partial(pre_func, strict=strict, passthrough=passthrough)  # type:ignore\n        df[", "        pre_func = self.compress\n        func = partial(pre_func, strict=strict, passthrough=passthrough)  # type:ignore\n        df[", "C16-D1")
+t("twin-partial-lambda", "C16", API, "func = partial(self.standardize_curie, strict=strict, passthrough=passthrough)", "func = lambda x: self.standardize_curie(x, strict=strict, passthrough=passthrough)  # noqa")
+t("twin-target-is-not-none", "C16", API, "        func = partial(self.standardize_uri, strict=strict, passthrough=passthrough)\n        df[column if target_column is None else target_column] = df[column].map(func)", "        func = partial(self.standardize_uri, strict=strict, passthrough=passthrough)\n        df[target_column if target_column is not None else column] = df[column].map(func)")
+
+# ------------------------------------------------------------------------------------- C17 / C18
+b("fastapi-no-path", "C17", RES, "{{identifier:path}}", "{{identifier}}", "C17-D1")
+b("flask-no-resplit", "C17", RES, '        prefix, identifier = _split(\n            f"{prefix}{converter.delimiter}{identifier}", sep=converter.delimiter\n        )\n        location = converter.expand_pair(prefix, identifier)\n        if location is None:\n            prefixes = "".join(', '        location = converter.expand_pair(prefix, identifier)\n        if location is None:\n            prefixes = "".join(', "C17-D2")
+b("redirect-default-status", "C17", RES, "return RedirectResponse(location, status_code=302)", "return RedirectResponse(location)", "C17-D3")
+b("failure-code-404", "C17", RES, "FAILURE_CODE = 422", "FAILURE_CODE = 404", "C17-D3")
+b("flask-no-path", "C17", RES, "<path:identifier>", "<identifier>", "C17-D1")
+b("resplit-default-sep", "C17", RES, '        prefix, identifier = _split(\n            f"{prefix}{converter.delimiter}{identifier}", sep=converter.delimiter\n        )\n        location = converter.expand_pair(prefix, identifier)\n        if location is None:\n            prefixes = ", ".join(', '        prefix, identifier = _split(f"{prefix}{converter.delimiter}{identifier}")\n        location = converter.expand_pair(prefix, identifier)\n        if location is None:\n            prefixes = ", ".join(', "C17-D2")
+b("flask-expand-passthrough", "C17", RES, '        location = converter.expand_pair(prefix, identifier)\n        if location is None:\n            prefixes = "".join(', '        location = converter.expand_pair(prefix, identifier, passthrough=True)\n        if location is None:\n            prefixes = "".join(', "C17-D3")
+b("header-ascending", "C18", MSU, "return sorted(parts, key=parts.__getitem__, reverse=True)", "return sorted(parts, key=parts.__getitem__)", "C18-D2")
+b("header-no-strip", "C18", MSU, "key, *parameters = (x.strip() for x in part.split(\";\"))", "key, *parameters = (x for x in part.split(\";\"))", "C18-D3")
+b("triples-asymmetric", "C18", MSA, "                    yield subj, pred, obj_query\n", "                    yield obj_query, pred, subj\n", "C18-D5")
+b("synonym-dangling", "C18", MSU, '"text/csv": "application/sparql-results+csv",\n}', '"text/csv": "application/sparql-results+tsv",\n}', "C18-D1")
+b("fastapi-no-post", "C18", MSA, "    @api_router.post(route)\n", "    @api_router.put(route)\n", "C18-D6")
+b("expand-pair-all-not-strict", "C18", MSA, "self.converter.expand_pair_all(reference.prefix, reference.identifier, strict=True)", "self.converter.expand_pair_all(reference.prefix, reference.identifier)", "C18-D4")
+b("no-validity-filter", "C18", MSA, "return [URIRef(uri) for uri in uris if _is_valid_uri(uri)]", "return [URIRef(uri) for uri in uris]", "C18-D4")
+b("default-q-zero", "C18", MSU, "    return key, 1.0\n", "    return key, 0.0\n", "C18-D2")
+b("handle-header-no-synonyms", "C18", MSU, "        header_part = CONTENT_TYPE_SYNONYMS.get(header_part, header_part)\n", "", "C18-D2")
+t("twin-header-neg-key", "C18", MSU, "return sorted(parts, key=parts.__getitem__, reverse=True)", "return sorted(parts, key=lambda k: -parts[k])")
+
+# ------------------------------------------------------------------------------------- C19 / C20
+b("discover-unsorted", "C19", DISC, "        for uri_prefix, luids in sorted(uri_prefix_to_luids.items())\n", "        for uri_prefix, luids in uri_prefix_to_luids.items()\n", "C19-D2")
+b("discover-split", "C19", DISC, "uri.rsplit(delimiter, maxsplit=1)", "uri.split(delimiter, maxsplit=1)", "C19-D4")
+b("discover-cutoff-gt", "C19", DISC, "len(luids) >= cutoff", "len(luids) > cutoff", "C19-D3")
+b("discover-start-0", "C19", DISC, "enumerate(uri_prefixes, start=1)", "enumerate(uri_prefixes)", "C19-D2")
+b("discover-list-accumulator", "C19", DISC, "    uri_prefix_to_luids = defaultdict(set)\n", "    uri_prefix_to_luids = defaultdict(list)\n", "C19-D1")
+b("discover-no-break", "C19", DISC, "                uri_prefix_to_luids[uri_prefix + delimiter].add(luid)\n                break\n", "                uri_prefix_to_luids[uri_prefix + delimiter].add(luid)\n", "C19-D4")
+b("discover-known-not-skipped", "C19", DISC, "        if converter is not None and converter.is_uri(uri):\n            continue\n", "", "C19-D5")
+b("discover-key-without-delimiter", "C19", DISC, "uri_prefix_to_luids[uri_prefix + delimiter].add(luid)", "uri_prefix_to_luids[uri_prefix].add(luid)", "C19-D4")
+t("twin-discover-records-loop", "C19", DISC, "    records = [\n        Record(prefix=f\"{metaprefix}{uri_prefix_index}\", uri_prefix=uri_prefix)\n        for uri_prefix_index, uri_prefix in enumerate(uri_prefixes, start=1)\n    ]\n", "    records = [\n        Record(prefix=metaprefix + str(uri_prefix_index), uri_prefix=uri_prefix)\n        for uri_prefix_index, uri_prefix in enumerate(uri_prefixes, start=1)\n    ]\n", "str() + concatenation instead of an f-string")
+b("w3c-fullmatch-to-match", "C20", W3C, "return bool(NCNAME_RE.fullmatch(prefix))", "return bool(NCNAME_RE.match(prefix))", "C20-D1 C20-D3")
+b("w3c-colon-in-ncname", "C20", W3C, 'NCNAME_PATTERN = r"[A-Za-z_][A-Za-z0-9\\.\\-_]*"', 'NCNAME_PATTERN = r"[A-Za-z_][A-Za-z0-9\\.\\-_:]*"', "C20-D1")
+b("w3c-no-bracket-test", "C20", W3C, '    if "[" in curie or "]" in curie:\n        return False\n', "", "C20-D3")
+b("w3c-rpartition", "C20", W3C, 'prefix, sep, identifier = curie.partition(":")', 'prefix, sep, identifier = curie.rpartition(":")', "C20-D3")
+b("w3c-luid-match", "C20", W3C, "return bool(LOCAL_UNIQUE_IDENTIFIER_RE.fullmatch(luid))", "return bool(LOCAL_UNIQUE_IDENTIFIER_RE.match(luid))", "C20-D2 C20-D3")
+b("w3c-digit-start", "C20", W3C, 'NCNAME_PATTERN = r"[A-Za-z_][A-Za-z0-9\\.\\-_]*"', 'NCNAME_PATTERN = r"[A-Za-z0-9_][A-Za-z0-9\\.\\-_]*"', "C20-D1")
+b("w3c-blank-check-removed", "C20", W3C, "    if not curie.strip():\n        return False\n", "", "C20-D3")
+t("twin-w3c-re-fullmatch", "C20", W3C, "return bool(NCNAME_RE.fullmatch(prefix))", "return re.fullmatch(NCNAME_PATTERN, prefix) is not None")
+t("twin-w3c-anchored-match", "C20", W3C, 'NCNAME_RE = re.compile(f"^{NCNAME_PATTERN}$")', 'NCNAME_RE = re.compile(rf"\\A{NCNAME_PATTERN}\\Z")')
+t("twin-w3c-anchored-match-used", "C20", W3C, 'NCNAME_RE = re.compile(f"^{NCNAME_PATTERN}$")\n', 'NCNAME_RE = re.compile(rf"\\A{NCNAME_PATTERN}\\Z")\nNCNAME_MATCH = NCNAME_RE.match\n')
+
+
+def _run_one(args):
+    """Evaluate one variant in a worker process: returns a result dict."""
+    vid, files = args
+    from . import props  # noqa: F401
+    from .model import AnalysisError, Model
+    from .report import Cx, evaluate
+
+    v = next(x for x in V if x.id == vid)
+    src = files.get(v.file)
+    if src is None or v.old not in src:
+        return {"id": v.id, "kind": v.kind, "props": list(v.props), "status": "not-applicable", "detail": "anchor text not present in the current tree"}
+    new_files = dict(files)
+    new_files[v.file] = src.replace(v.old, v.new, 1)
+    try:
+        model = Model(new_files)
+    except AnalysisError as e:
+        return {"id": v.id, "kind": v.kind, "props": list(v.props), "status": "not-applicable", "detail": f"variant does not parse: {e.reason}"}
+    out = {"id": v.id, "kind": v.kind, "props": list(v.props), "note": v.note, "obligations": {}}
+    met = True
+    for p in v.props:
+        cx = Cx(model, "quick")
+        obs = evaluate(p, cx)
+        st = {o.id: o.status for o in obs}
+        out["obligations"][p] = {k: s for k, s in st.items() if s != "HOLDS"}
+        if v.kind == "breaking":
+            want = [e for e in v.expect if e.startswith(p + "-")]
+            if want and not any(st.get(e) == "VIOLATED" for e in want):
+                met = False
+                out.setdefault("unmet", []).append(f"{p}: expected one of {want} VIOLATED, got { {k: s for k, s in st.items() if s != 'HOLDS'} }")
+        else:
+            bad = {k: s for k, s in st.items() if s != "HOLDS"}
+            if bad:
+                met = False
+                findings = [f"{f.key}: {f.message[:80]}" for o in obs for f in o.findings] + [f"{o.id}: {r[:100]}" for o in obs for r in o.undecided_reasons]
+                out.setdefault("unmet", []).append(f"{p}: benign twin not silent: {bad} {findings[:3]}")
+    out["status"] = "met" if met else "UNMET"
+    return out
+
+
+def run_matrix(prop: str | None, jobs: int | None = None):
+    """Run the variants relevant to ``prop`` (all if None) against the current tree."""
+    from .model import read_tree
+
+    t0 = time.time()
+    files = read_tree()
+    todo = [v for v in V if prop is None or prop in v.props]
+    results = []
+    jobs = jobs or min(16, os.cpu_count() or 4)
+    args = [(v.id, files) for v in todo]
+    if len(todo) <= 2 or jobs <= 1:
+        results = [_run_one(a) for a in args]
+    else:
+        with ProcessPoolExecutor(max_workers=jobs) as ex:
+            results = list(ex.map(_run_one, args, chunksize=2))
+    if prop is not None:
+        # restrict reporting to this property's part of each variant
+        for r in results:
+            r["unmet"] = [u for u in r.get("unmet", []) if u.startswith(prop + ":")]
+            if r["status"] == "UNMET" and not r["unmet"]:
+                r["status"] = "met"
+    unmet = [r for r in results if r["status"] == "UNMET"]
+    na = [r for r in results if r["status"] == "not-applicable"]
+    code = 0
+    for r in unmet:
+        for u in r["unmet"]:
+            print(f"ANALYSIS-ERROR property={prop or 'ALL'} obligation=sensitivity-matrix reason=variant {r['id']} ({r['kind']}): {u}")
+        code = 2
+    summary = {
+        "sensitivity_matrix": {
+            "variants_total": len(results),
+            "breaking": sum(1 for r in results if r["kind"] == "breaking"),
+            "benign_twins": sum(1 for r in results if r["kind"] == "benign"),
+            "met": sum(1 for r in results if r["status"] == "met"),
+            "unmet": [r["id"] for r in unmet],
+            "not_applicable": [r["id"] for r in na],
+            "wall_s": round(time.time() - t0, 2),
+            "rows": [{"id": r["id"], "kind": r["kind"], "status": r["status"], "reported": r.get("obligations", {})} for r in results],
+        }
+    }
+    print(f"sensitivity matrix for {prop or 'ALL'}: {summary['sensitivity_matrix']['met']}/{len(results)} expectations met, {len(unmet)} unmet, {len(na)} not applicable ({summary['sensitivity_matrix']['wall_s']} s)")
+    return code, summary
+
+
+if __name__ == "__main__":
+    import sys
+
+    c, s = run_matrix(sys.argv[1] if len(sys.argv) > 1 else None)
+    sys.exit(c)
